@@ -356,7 +356,27 @@ def run_check(prop, tier, seed, owner=None, restrict=None):
         ck.cov['cegar_refinements'] = getattr(pr2, 'refinements', 0)
 
     ck.absorb(pr)
-    if prop == 'C14':
+    if prop == 'C06' and owner is None and not ck.violations:
+        # the property's premise ("records whose void-after is at least 5 s after as-of, as every daemon-written record is") is itself
+        # decided here, on the daemon's updater
+        try:
+            from .daemon_updater import void_after_part
+            from .daemon_extract import load_dlib_program
+            dprog, _w = load_dlib_program()
+            Hv = void_after_part(ck, dprog, seed, tier)
+            ck.cov['functions_encoded'] = list(ck.cov['functions_encoded']) + ['ShmUpdater (histories of <= %d outcomes): void_after >= as_of + 5 s in every published record' % Hv]
+        except EngineError as e:
+            ck.inconclusive.append('daemon side of the premise (void_after >= as_of + 5 s): %s' % e)
+    if prop == 'C05' and owner is None:
+        # what the caller receives: both client libraries hand on exactly the interval now() computed (no reordering, clamping or swapping
+        # of its two ends on the way out)
+        try:
+            from .abi_layout import wrappers_for_c14
+            wrappers_for_c14(ck, prog, seed, key='client-library-alters-the-interval')
+            ck.cov['functions_encoded'] = list(ck.cov['functions_encoded']) + ['clockbound_now (C library)', 'ClockBoundClient::now']
+        except EngineError as e:
+            ck.inconclusive.append('client wrappers: %s' % e)
+    if prop == 'C14' and owner is None:
         # the calls a client actually makes go through the two wrappers (C library and Rust client): failing cleanly includes that a
         # failure is reported as the documented kind and does not outlive its cause on the same context
         try:
